@@ -240,6 +240,7 @@ func runC09(c *Check) {
 	c.errorsContinue()
 	c.constantPatterns()
 	c.negationRecursionGuarded()
+	c.resumeInsideShortenedString()
 	// a profile that no source of a chunk produced is never merged (shared with C16-R7)
 	c.relabel(c.combineNonNil, "C16-R7", "C09-R11", nil)
 }
